@@ -108,6 +108,9 @@ def make_config(rng, prof_name, tier):
         # colouring (0.15 s): rare in the quick tier
         hypervalent=(prof_name in ("C01", "C03") and rng.random() < (0.03 if tier == "thorough" else 0.006)),
     )
+    if cfg["hypervalent"]:
+        cfg["steps"] = min(cfg["steps"], 24)   # every colouring costs 8! permutations
+        cfg["callers"] = 1
     # the profile's own speciality is never switched off
     top = max(p["tx"], key=lambda k: p["tx"][k])
     cfg["tx"][top] = max(cfg["tx"][top], p["tx"][top])
